@@ -171,6 +171,20 @@ def gen_cases(tier, rng_seed):
             p1, e1 = s_forms(s, rng, form())
             exp = model(s)
             cases.append(mk(fam, p1, "%s(%s)" % (name, e1), exp, exp[1] != s))
+    # INSTR over a two-letter alphabet: long hays with self-overlapping needles (partial matches that
+    # fail inside the true first occurrence), every start position
+    HL = 6 if tier == "quick" else 9
+    hays = ["".join(t) for k in range(1, HL + 1) for t in itertools.product("ab", repeat=k)]
+    ndl = ["".join(t) for k in range(1, 5) for t in itertools.product("ab", repeat=k)]
+    for s in hays:
+        for t in ndl:
+            if len(t) > len(s):
+                continue
+            exp = m_instr(1, s, t)
+            cases.append(mk("instr_overlap", "", "INSTR(%s, %s)" % (lit_str(s), lit_str(t)), exp, exp[1] > 1))
+            n = rng.randrange(1, len(s) + 1)
+            exp = m_instr(n, s, t)
+            cases.append(mk("instr_overlap", "", "INSTR(%d, %s, %s)" % (n, lit_str(s), lit_str(t)), exp, exp[1] > n))
     # LEN(a + b) = LEN(a) + LEN(b)
     pairs = [(a, b) for a in SS for b in SS]
     if tier == "quick":
